@@ -181,7 +181,9 @@ func genC17(s uint64, idx int) *Plan {
 				if core.Chance(r, 1, 2) {
 					g.giveAddrs(h.Host) // the aliased name has addresses of its own, too
 				}
-				g.giveAddrs(end)
+				if !core.Chance(r, 1, 5) { // (else: the alias target owns no address records)
+					g.giveAddrs(end)
+				}
 				if core.Chance(r, 4, 5) {
 					g.services(end, end, tag)
 				}
